@@ -1541,6 +1541,35 @@ def run(index, rep, tier):
                                   "%s reads `%s` with `%s` - None at the end of the stream - and hands it to `%s` without a test: a document cut off inside the statement makes the reader create (or look up) a taxon whose label is None and carry on, instead of raising the end-of-stream parse error that require_next_token() gives" % (fi.qualname, a.id, norm(bad[0].ast.value)[:50] if bad else "", norm(c)[:60]))
         rep.floor("R20.23", "tokens used as labels", 2, n23)
 
+    # ---- R20.24 the alphabet a matrix is read with has symbols
+    with rep.section("R20.24"):
+        rep.rule("R20.24", "the alphabet a matrix is read with has symbols: a StateAlphabet built from an empty symbol string never compiles its look-up maps (full_symbol_state_map stays None), so where the NEXUS reader builds the alphabet of a standard-type block from the symbols collected so far, the symbol string is either given a non-empty default (`<symbols> or \"...\"`) or tested for emptiness first - a DATA block without a FORMAT statement (or with SYMBOLS=\"\") otherwise fails with TypeError: 'NoneType' object is not subscriptable on its first cell")
+        n24 = 0
+        for fi in index.functions_in_module("dendropy.dataio.nexusreader"):
+            for c in calls_in(fi.node):
+                if call_name(c) != "_build_state_alphabet" or len(c.args) < 2:
+                    continue
+                n24 += 1
+                a = c.args[1]
+                ok = isinstance(a, ast.BoolOp) and isinstance(a.op, ast.Or) and isinstance(a.values[-1], ast.Constant) and isinstance(a.values[-1].value, str) and len(a.values[-1].value) > 0
+                if not ok:
+                    g = cfg_of(fi)
+                    nd = node_of_ast(g, c)
+                    txt = norm(a)
+
+                    def maybe_empty(s, l, d, txt=txt):
+                        # follow only edges on which the symbol string may still be empty
+                        if s.kind == "test" and norm(s.ast) == txt:
+                            return l == "f"
+                        if s.kind == "test" and isinstance(s.ast, ast.Compare) and len(s.ast.ops) == 1 and norm(s.ast.left) in (txt, "len(%s)" % txt):
+                            return True
+                        return True
+                    has = any(s.kind == "test" and norm(s.ast) == txt for s in g.nodes)
+                    ok = has and nd is not None and nd not in g.reach([g.entry], follow_exc=False, edge_ok=maybe_empty)
+                rep.check(ok, "R20.24", fi.qualname, "alphabet built from a symbol string that may be empty", fn_where(fi, c), "%s: the symbols handed to _build_state_alphabet cannot be empty" % fi.name,
+                          "%s builds the block's state alphabet from `%s`, which is still empty when the block has no FORMAT statement (the reader starts with no symbols and fills them only on DATATYPE= / SYMBOLS=): an alphabet without fundamental states never compiles its symbol map, and the first cell of the matrix raises TypeError: 'NoneType' object is not subscriptable from inside _read_character_states" % (fi.qualname, norm(a)))
+        rep.floor("R20.24", "alphabets built from collected symbols", 1, n24)
+
 
 def _branch_calls_raiser(cfg, n):
     for lab, t in n.succ:
